@@ -146,10 +146,11 @@ def gen_ops_random(rng, n):
 
 def corr_scope(ck, drv):
     rng = ck.rng
+    pick = getattr(ck, "_c02_pick", ck.pick)
     cases = list(gen_ops_exhaustive(ck.pick(3, 4)))
     n_exh = len(cases)
     # use names returned by enum/maybe_enum in later ops: generate, run real, splice results in
-    for _ in range(ck.pick(600, 6000)):
+    for _ in range(pick(600, 6000)):
         ops = gen_ops_random(rng, rng.randrange(3, 40))
         outs, _, _ = run_real_ops(ops)
         gen_names = [o for op, o in zip(ops, outs) if op[0] in ("enum", "maybe")]
@@ -344,7 +345,8 @@ def _case_worker(task):
     rng = random.Random(f"{seed}:{idx}")
     with warnings.catch_warnings():
         warnings.simplefilter("ignore")
-        feat = {"custom": True, "generic": True, "func_if": True, "ml": True, "inline_sibling_names": True}
+        feat = {"custom": True, "generic": True, "func_if": True, "ml": True, "inline_sibling_names": True,
+                "collide": True}
         if mode == "naming":  # no version adaptation: every name is predictable
             feat = {"mixed": False, "rmax": False, "custom": True, "generic": True, "func_if": True, "ml": True,
                     "inline_sibling_names": True}
@@ -449,6 +451,24 @@ def observe_final_check(specs):
 
 
 HAND_SPECS = [
+    # an overridable initializer default of an inlined model overridden by the caller: well-typed, then with a
+    # wrong dtype / rank / dimension (must be refused, never built into an ill-typed model)
+    {"args": ["f"], "inputs": [["x", 0]], "stmts": [["op", "neg", 17, [0]], ["inline", 0, [0], {"dflt": ["ok", 1]}]],
+     "outputs": [["y", 2]], "drop": False, "funcs": [],
+     "models": [{"ins": ["a"], "outs": ["r"], "nodes": [["Add", "n", ["a", "dflt"], ["r"]]], "inits": [], "opset": 17,
+                 "defaults": [["dflt", [0.5, 2.0]]]}]},
+    {"args": ["f"], "inputs": [["x", 0]], "stmts": [["op", "neg", 17, [0]], ["inline", 0, [0], {"dflt": ["dtype", 1]}]],
+     "outputs": [["y", 2]], "drop": False, "funcs": [],
+     "models": [{"ins": ["a"], "outs": ["r"], "nodes": [["Add", "n", ["a", "dflt"], ["r"]]], "inits": [], "opset": 17,
+                 "defaults": [["dflt", [0.5, 2.0]]]}]},
+    {"args": ["f"], "inputs": [["x", 0]], "stmts": [["op", "neg", 17, [0]], ["inline", 0, [0], {"dflt": ["rank", 1]}]],
+     "outputs": [["y", 2]], "drop": False, "funcs": [],
+     "models": [{"ins": ["a"], "outs": ["r"], "nodes": [["Add", "n", ["a", "dflt"], ["r"]]], "inits": [], "opset": 17,
+                 "defaults": [["dflt", [0.5, 2.0]]]}]},
+    {"args": ["f"], "inputs": [["x", 0]], "stmts": [["op", "neg", 17, [0]], ["inline", 0, [0], {"dflt": ["dim", 1]}]],
+     "outputs": [["y", 2]], "drop": False, "funcs": [],
+     "models": [{"ins": ["a"], "outs": ["r"], "nodes": [["Add", "n", ["a", "dflt"], ["r"]]], "inits": [], "opset": 17,
+                 "defaults": [["dflt", [0.5, 2.0]]]}]},
     # known finding inline:sibling-bodies-share-names: an inlined model whose two If branches both call a value
     # `tmp` and a node `n` (valid ONNX: sibling scopes)
     {"args": ["f", "b"], "inputs": [["x", 0], ["c", 1]], "stmts": [["inline", 0, [0, 1]]],
@@ -537,6 +557,27 @@ def run(ck: core.Check):
     if ck.thorough:
         ck.leanchecker(["SpoxModel.Props.C02"])
 
+    # tie G (change-triggered escalation): any edit of a covered spox function makes this run use the
+    # thorough generation counts (not a verdict by itself)
+    try:
+        from harness import lib_c02c14_sources as SRC
+
+        cur, diff = SRC.changed()
+        ck.cov["covered_sources"] = {"functions_hashed": len(cur), "differ_from_baseline": diff[:40],
+                                     "escalated_generation_counts_x2.5": bool(diff) and not ck.thorough}
+    except Exception as e:  # noqa: BLE001
+        diff = ["<hashing failed>"]
+        ck.cov["covered_sources"] = {"error": f"{type(e).__name__}: {e}"}
+    escalated = bool(diff) and not ck.thorough
+    if diff and not ck.thorough:
+        ck.log(f"covered sources changed ({len(diff)}: {', '.join(diff[:4])}{' ...' if len(diff) > 4 else ''}) "
+               "-> 2.5x generation counts")
+
+    def pick(q, t):
+        # (the full thorough counts would take the quick tier far beyond its time budget on a loaded machine)
+        return t if ck.thorough else (min(t, int(q * 2.5)) if escalated else q)
+
+    ck._c02_pick = pick
     try:
         drv = ck.driver()
     except Exception as e:  # noqa: BLE001
@@ -552,8 +593,8 @@ def run(ck: core.Check):
                       f"{type(e).__name__}: {e} (spox._scope.ScopeSpace attributes/signatures changed?)")
 
     # generated programs (oracle on all; naming correspondence on the 'naming' slice)
-    n_oracle = ck.pick(1600, 12000)
-    n_naming = ck.pick(500, 5000)
+    n_oracle = pick(1600, 12000)
+    n_naming = pick(500, 5000)
     tasks = [(ck.seed, i, "oracle") for i in range(n_oracle)] + [(ck.seed, 10**6 + i, "naming") for i in range(n_naming)]
     results = L.robust_map(case_worker, tasks, min(14, mp.cpu_count()), core.WORK)
     # a case on which the worker process died (C++ abort inside a third-party judge): judged again without
